@@ -1249,6 +1249,149 @@ pub fn gen_perf_map(rng: &mut Rng) -> (Vec<PerfMapLine>, Vec<(u64, u64)>) {
     (lines, ranges)
 }
 
+/// Harness-side mirror of which (pid, tid) incarnations are alive in the eager reading of a history
+/// (`ConvSpec.Life.step` in the Lean specification), and of the grammar clauses under which C17 is judged
+/// (`ConvSpec.Life.stepOk`: a FORK never names a bound child, `tid != pid`, `tid != ptid`, EXEC on main threads
+/// only). Used to steer the non-violating generator stream and to count the judged share of the cases; the
+/// authoritative decision is the Lean judge's.
+#[derive(Clone, Debug, Default)]
+pub struct LifeTrack {
+    /// alive processes: pid -> alive non-main tids (the main thread is alive exactly as long as the process)
+    pub procs: BTreeMap<u32, Vec<u32>>,
+    /// `current_sample_time` (starts at the reference time)
+    pub cur: u64,
+    pub ref_time: u64,
+    /// (pid, tid) pairs that have exited (or whose process has exited / exec'd) and were not re-created since
+    pub exited: Vec<(u32, u32)>,
+}
+
+impl LifeTrack {
+    pub fn new(ref_time: u64) -> Self {
+        LifeTrack { cur: ref_time, ref_time, ..Default::default() }
+    }
+    pub fn alive(&self, pid: u32, tid: u32) -> bool {
+        self.procs.get(&pid).map(|t| tid == pid || t.contains(&tid)).unwrap_or(false)
+    }
+    fn ensure_thread(&mut self, pid: u32, tid: u32) {
+        let e = self.procs.entry(pid).or_default();
+        if tid != pid && !e.contains(&tid) {
+            e.push(tid);
+        }
+        self.exited.retain(|x| *x != (pid, tid) && *x != (pid, pid));
+    }
+    fn end_proc(&mut self, pid: u32) {
+        if let Some(tids) = self.procs.remove(&pid) {
+            self.exited.push((pid, pid));
+            for t in tids {
+                self.exited.push((pid, t));
+            }
+        }
+    }
+    /// `Life.stepOk` evaluated in the state before the record
+    pub fn step_ok(&self, r: &Rec) -> bool {
+        match r {
+            Rec::Fork { pid, tid, ppid, ptid, .. } => {
+                if pid != ppid {
+                    !self.procs.contains_key(pid)
+                } else {
+                    tid != pid && tid != ptid && !self.alive(*pid, *tid)
+                }
+            }
+            Rec::Comm { pid, tid, exec, .. } => !*exec || pid == tid,
+            _ => true,
+        }
+    }
+    /// does the record mention a (pid, tid) that has exited and was not re-created (the converter then
+    /// creates a fresh on-demand entry)?
+    pub fn mentions_exited(&self, r: &Rec) -> bool {
+        let (pid, tid) = match r {
+            Rec::Sample { pid, tid, .. }
+            | Rec::Exit { pid, tid, .. }
+            | Rec::Comm { pid, tid, .. }
+            | Rec::Mmap2 { pid, tid, .. }
+            | Rec::SwitchIn { pid, tid, .. }
+            | Rec::SwitchOut { pid, tid, .. }
+            | Rec::Sched { pid, tid, .. } => (*pid, *tid),
+            Rec::Fork { ppid, ptid, .. } => (*ppid, *ptid),
+        };
+        self.exited.contains(&(pid, tid)) || (self.exited.contains(&(pid, pid)) && !self.procs.contains_key(&pid))
+    }
+    /// a non-main thread's EXIT for a pid without live process (e.g. after the main thread's EXIT): the
+    /// converter re-creates a process entry on demand (`handle_exit` -> `get_by_pid`)
+    pub fn orphan_thread_exit(&self, r: &Rec) -> bool {
+        matches!(r, Rec::Exit { pid, tid, .. } if pid != tid && !self.procs.contains_key(pid))
+    }
+    pub fn step(&mut self, r: &Rec) {
+        match r {
+            Rec::Sample { pid, tid, t, .. } => {
+                if *tid != 0 {
+                    self.cur = *t;
+                    self.ensure_thread(*pid, *tid);
+                }
+            }
+            Rec::Fork { pid, tid, ppid, ptid, .. } => {
+                if pid != ppid {
+                    self.ensure_thread(*ppid, *ppid);
+                    if !self.procs.contains_key(pid) {
+                        self.ensure_thread(*pid, *pid);
+                    }
+                } else {
+                    self.ensure_thread(*ppid, *ptid);
+                    self.ensure_thread(*pid, *tid);
+                }
+            }
+            Rec::Exit { pid, tid, .. } => {
+                if pid == tid {
+                    self.end_proc(*pid);
+                } else {
+                    // an EXIT record creates nothing in the eager reading
+                    if let Some(e) = self.procs.get_mut(pid) {
+                        if e.contains(tid) {
+                            e.retain(|x| x != tid);
+                            self.exited.push((*pid, *tid));
+                        }
+                    }
+                }
+            }
+            Rec::Comm { pid, tid, exec, .. } => {
+                if *exec && pid == tid {
+                    self.end_proc(*pid);
+                }
+                self.ensure_thread(*pid, *tid);
+            }
+            Rec::Mmap2 { pid, tid, exec, path, .. } => {
+                if !(self.cur == self.ref_time || path.is_empty()) {
+                    self.ensure_thread(*pid, *tid);
+                }
+                if *exec {
+                    self.ensure_thread(*pid, *pid);
+                }
+            }
+            Rec::SwitchIn { pid, tid, .. } | Rec::SwitchOut { pid, tid, .. } => {
+                if *tid != 0 {
+                    self.ensure_thread(*pid, *tid);
+                }
+            }
+            Rec::Sched { pid, tid, .. } => self.ensure_thread(*pid, *tid),
+        }
+    }
+}
+
+/// Is the history inside the grammar under which the C17 judge applies (default options, `Life.grammarOk`)?
+pub fn c17_judged(h: &History) -> bool {
+    if h.reuse {
+        return false;
+    }
+    let mut lt = LifeTrack::new(h.ref_time);
+    for r in &h.recs {
+        if !lt.step_ok(r) {
+            return false;
+        }
+        lt.step(r);
+    }
+    true
+}
+
 struct Sim {
     /// live processes: pid -> live non-main tids
     live: BTreeMap<u32, Vec<u32>>,
@@ -1460,7 +1603,11 @@ pub fn gen_history(rng: &mut Rng, shape: &Shape) -> History {
                 if !violate && sim.live[&pid].contains(&tid) {
                     continue;
                 }
-                let ptid = some_tid(rng, &sim, pid);
+                let mut ptid = some_tid(rng, &sim, pid);
+                if !violate && (ptid == tid || (ptid != pid && !sim.live[&pid].contains(&ptid))) {
+                    // the forking thread is alive and is not the child
+                    ptid = pid;
+                }
                 h.recs.push(Rec::Fork { pid, tid, ppid: pid, ptid, t });
                 let e = sim.live.entry(pid).or_default();
                 if !e.contains(&tid) {
@@ -1562,7 +1709,10 @@ pub fn gen_history(rng: &mut Rng, shape: &Shape) -> History {
                     }
                     sim.live.entry(pid).or_default();
                 }
-                let tid = if rng.chance(3, 4) { pid } else { some_tid(rng, &sim, pid) };
+                let mut tid = if rng.chance(3, 4) { pid } else { some_tid(rng, &sim, pid) };
+                if !violate && tid != pid && !sim.live.get(&pid).map(|l| l.contains(&tid)).unwrap_or(false) {
+                    tid = pid;
+                }
                 if !shape.mappings && !rng.chance(1, 3) {
                     continue;
                 }
@@ -1612,7 +1762,43 @@ pub fn gen_history(rng: &mut Rng, shape: &Shape) -> History {
         (None, 0..=2) => base_t,
         _ => 0,
     };
+    sanitize(&mut h, violate);
     h
+}
+
+/// Is the candidate finding `id` recorded in KNOWN_FINDINGS.txt (or is `CONV_FINDINGS=1` set)? Families that
+/// show a candidate finding are generated only then, so that the checks are green before and after the lead's
+/// decision; the judges condemn such outputs unconditionally.
+pub fn finding_enabled(id: &str) -> bool {
+    if let Ok(v) = std::env::var("CONV_FINDINGS") {
+        return v == "1";
+    }
+    let root = std::env::var("VERIF_ROOT").unwrap_or_else(|_| concat!(env!("CARGO_MANIFEST_DIR"), "/..").to_string());
+    std::fs::read_to_string(format!("{root}/KNOWN_FINDINGS.txt")).map(|t| t.contains(id)).unwrap_or(false)
+}
+
+pub const FINDING_PHANTOM: &str = "C17-phantom-process-on-thread-exit";
+
+/// Final pass over a generated history with the exact lifecycle tracker (the reference time is known only
+/// now): the non-violating stream keeps only records inside the judged grammar (`Life.stepOk`); records
+/// that show a candidate finding are dropped unless the finding is enabled (`finding_enabled`).
+fn sanitize(h: &mut History, violate: bool) {
+    // orphan thread EXITs (candidate finding C17-phantom-process-on-thread-exit) only occur in the fixed
+    // families of C17, where what follows them is controlled
+    let phantom = false;
+    let mut lt = LifeTrack::new(h.ref_time);
+    let mut kept = Vec::with_capacity(h.recs.len());
+    for r in h.recs.drain(..) {
+        if !violate && !lt.step_ok(&r) {
+            continue;
+        }
+        if !phantom && lt.orphan_thread_exit(&r) {
+            continue;
+        }
+        lt.step(&r);
+        kept.push(r);
+    }
+    h.recs = kept;
 }
 
 // ---------------------------------------------------------------------------------------------
